@@ -121,6 +121,18 @@ ADD = {
     "C15": " No raise statement of the package raises a module-level exception instance (located_error decorates coercible exceptions in place).",
     "C18": " Error records: coerce_value returns the record it built, `extensions` iff the error carries some, locations from the attached ones else the error's own, `path` is the list handed over by handle_field_error; several anonymous operations are refused before operations are indexed by name.",
 }
+E13_TEXT = {
+    "C01": " The wrapper-chain builder and execute_fields are decided by abstract evaluation (sa/absint.py): interpreted over every type shape up to three wrappers / every assignment of the concurrency flag with unknown and null-resolving fields, results compared as terms with the composition and the key-to-resolver mapping the specification prescribes (bounded; independent of how the function is written).",
+    "C02": " located_error is interpreted over 96 abstract failure x nodes x path combinations: each member located once, the same object kept, exactly the lacking path / locations bound, no attribute read that the error does not have.",
+    "C03": " The output chain builder and execute_fields alignment are decided by abstract evaluation over type shapes / selections (as C01.R9, C01.R6).",
+    "C04": " get_input_coercer is interpreted over every type shape up to three wrappers and compared as a term with the prescribed composition.",
+    "C05": " get_literal_coercer is interpreted over every type shape up to three wrappers and compared as a term with the prescribed composition.",
+    "C07": " The single-root traversal is interpreted over every selection-set shape up to three fragments deep (266 shapes).",
+    "C11": " Extension.bake merges are interpreted on abstract extensions: every member list of the extended type is what it was followed by the extension's members.",
+    "C14": " The single-root traversal is interpreted over every selection-set shape up to three fragments deep; the source's operands are resolved on paths back to the producers' results.",
+}
+for _k, _v in TABLE.items():
+    _v["text"] = _v["text"] + E13_TEXT.get(_k, "")
 for _k, _v in TABLE.items():
     _v["text"] = _v["text"] + ADD.get(_k, "") + (RS_TEXT if _k not in ("C15", "C16", "C17") else "")
 
